@@ -17,7 +17,7 @@ use crate::with_spec;
 
 pub const RULE: &str = "stage header: one element header (leaf of each type, raw id, master) declaring size S ∈ {0, M-1, M, M+1, 2M, 2^21, 2^32, 4·10^9±1, 2^40, 2^56-2} ∪ log-uniform, encoded in every vint width that can hold it, \
 placed at root / inside a known-size master with or without room / inside an unknown-size master, followed by 0, 1 or min(S/2, 2^16) payload bytes; limit M ∈ {16, 4096, 2^20, 2^22} or the untouched default; initial capacity ∈ {16, 4096, default}; any tolerance subset. \
-The harness' counting global allocator (thread-local live/peak bytes) measures the whole parse incl. construction; items are dropped as they arrive. Oracle: no panic; S > M ⇒ rejected (InvalidTagSize, or an earlier documented check) with peak growth <= 2·cap + 4 KiB and no read request larger than the buffer; \
+The harness' counting global allocator (thread-local live/peak bytes) measures the whole parse incl. construction; items are dropped as they arrive. Oracle: no panic; S > M ⇒ rejected (InvalidTagSize, or an earlier documented check) with peak growth <= 2·cap + 4 KiB and no read request larger than the buffer, and — when nothing in the stream can be read as a size above 64 MiB — two further next() calls after the size error return no item and stay within the same bound; \
 S <= M with the payload missing ⇒ peak growth <= 4·max(S, cap) + 4 KiB. Stage long_stream: 150-600 elements of sizes up to the limit under unknown-size masters, capacities 16..1024 ⇒ the same bound over the whole parse (memory must not creep up). Stage stream: any input from the reader mix under limit M with no buffered masters ⇒ peak growth <= 4·max(M, cap) + 8 KiB. \
 Non-trivial: S > M in a width >= 2, or S <= M with fewer payload bytes present than declared; distinct by (stream, M, cap, tolerance).";
 
